@@ -79,10 +79,16 @@ def pool(tier):
     r4, s4 = sin(f1), sin(f2)
     P["shared_f"] = atan2(r4, s4) * exp(s4) + atan2(s4, r4)
     P["Ai0*vi"], P["Ai1*vi"] = ix(A, i, 0) * ix(v, i), ix(A, i, 1) * ix(v, i)
+    # two separately built, equal operator objects as the LAST operand of otherwise different products
+    e1_, e2_ = sin(g3), sin(g3)
+    P["e1"], P["e2"], P["f1*e1"], P["f2*e2"], P["c9*e1"], P["c10*e2"] = e1_, e2_, f1 * e1_, f2 * e2_, c9 * e1_, c10 * e2_
     # float literals whose digit groups coincide as numbers but not as text (1.5 / 1.05, 0.1 / 0.01)
     P["1.5*f1"], P["1.05*f1"], P["0.1*f1"], P["0.01*f1"] = 1.5 * f1, 1.05 * f1, 0.1 * f1, 0.01 * f1
     P["f1^2.5"], P["f1^2.05"] = f1**2.5, f1**2.05
     P["lit1.5"], P["lit1.05"], P["lit7"], P["lit07"] = as_ufl(1.5), as_ufl(1.05), as_ufl(0.7), as_ufl(0.07)
+    # float literals that agree to 15 significant digits (their reprs must still differ)
+    P["0.3a*f1"], P["0.3b*f1"] = (0.1 + 0.2) * f1, 0.3 * f1
+    P["1+e52*f1"], P["1+e51*f1"] = (1 + 2.0**-52) * f1, (1 + 2.0**-51) * f1
     # operators with a varying number of operands: one operand list a proper prefix of the other
     P["dot_l2"] = dot(as_vector([f1, f2]), as_vector([f1, f2]))
     P["dot_l3"] = dot(as_vector([f1, f2, g3]), as_vector([f1, f2, g3]))
@@ -100,6 +106,9 @@ def rkey(e):
         return ("mi",) + tuple(("fixed", int(q)) if isinstance(q, FixedIndex) else ("index",) for q in e.indices())
     if isinstance(e, Label):
         return ("label",)
+    if hasattr(e, "_value") and e._ufl_is_terminal_:
+        # literals by their exact Python value (UFL's own rendering of floats is under test elsewhere)
+        return ("lit", type(e).__name__, repr(e._value))
     if e._ufl_is_terminal_:
         return ("t", repr(e))
     return (type(e).__name__,) + tuple(rkey(o) for o in e.ufl_operands)
@@ -134,6 +143,17 @@ def run(spec):
                 sumeq[(a, b)] = prodeq[(a, b)] = True
             calls += 3
 
+    # history: evaluate == on every pair (it eagerly shares operand tuples between equal expressions), then
+    # tabulate cmp_expr again: the order must not depend on which comparisons happened before
+    for a in range(n):
+        for b in range(n):
+            try:
+                bool(E[a] == E[b])
+            except Exception:  # noqa: BLE001
+                pass
+    cmpv2 = {(a, b): cmp_expr(E[a], E[b]) for a in range(n) for b in range(n)}
+    calls += 2 * n * n
+
     def ftable(name, t, boolean):
         if boolean:
             tp = [f"(and (= i {a}) (= j {b}))" for (a, b), v in t.items() if v]
@@ -145,7 +165,7 @@ def run(spec):
         return f"(define-fun {name} ((i Int) (j Int)) Int {body})"
 
     extra = "\n".join([ftable("cmp", cmpv, False), ftable("same", same, True), ftable("sumeq", sumeq, True),
-                       ftable("prodeq", prodeq, True)])
+                       ftable("prodeq", prodeq, True), ftable("cmp2", cmpv2, False)])
     AX = {
         "cmp/antisymmetric": (2, "(not (= (cmp a b) (- (cmp b a))))"),
         "cmp/reflexive-zero": (1, "(not (= (cmp a a) 0))"),
@@ -153,6 +173,7 @@ def run(spec):
         "cmp/transitive-eq": (3, "(and (= (cmp a b) 0) (= (cmp b c) 0) (not (= (cmp a c) 0)))"),
         "cmp/eq-lt-compatible": (3, "(and (= (cmp a b) 0) (< (cmp b c) 0) (not (< (cmp a c) 0)))"),
         "cmp/zero-only-up-to-numbering": (2, "(and (= (cmp a b) 0) (not (same a b)))"),
+        "cmp/unchanged-by-earlier-equality-tests": (2, "(not (= (cmp a b) (cmp2 a b)))"),
         "sum/order-independent": (2, "(and (not (= (cmp a b) 0)) (not (sumeq a b)))"),
         "product/order-independent": (2, "(and (not (= (cmp a b) 0)) (not (prodeq a b)))"),
     }
